@@ -125,7 +125,18 @@ func mechLog(text string, sc scen, payloads [][]byte) []map[string]interface{} {
 	return evs
 }
 
+// runScenario runs one schedule with the library's debug log captured; the number of frames the library itself says it
+// dropped ("port buffer full - dropping frame") is reported with the outcome.
 func runScenario(sc scen, rng *rand.Rand) []rec.Event {
+	lb := &lockedBuf{}
+	os.Setenv("AGWPE_DEBUG", "1")
+	log.SetFlags(0)
+	log.SetOutput(lb)
+	evs := runScenarioLogged(sc, rng, lb)
+	return append(evs, rec.Event{"op": "Drops", "n": strings.Count(lb.String(), "port buffer full - dropping frame")})
+}
+
+func runScenarioLogged(sc scen, rng *rand.Rand, lb *lockedBuf) []rec.Event {
 	res := &result{}
 	if sc.Reverse {
 		os.Setenv("AGWPE_REVERSE_TO_FROM", "true")
@@ -137,14 +148,7 @@ func runScenario(sc scen, rng *rand.Rand) []rec.Event {
 			mech = false
 		}
 	}
-	var lb *lockedBuf
 	var mechPayloads [][]byte
-	if mech {
-		lb = &lockedBuf{}
-		os.Setenv("AGWPE_DEBUG", "1")
-		log.SetFlags(0)
-		log.SetOutput(lb)
-	}
 	sim, err := NewSim()
 	if err != nil {
 		return []rec.Event{{"op": "Infra", "err": err.Error()}}
@@ -760,7 +764,7 @@ func Main(args []string) int {
 	results := make([][]rec.Event, len(scs))
 	selfExe, _ := os.Executable()
 	var wg sync.WaitGroup
-	sem := make(chan struct{}, 24)
+	sem := make(chan struct{}, 8)
 	for i := range scs {
 		wg.Add(1)
 		sem <- struct{}{}
@@ -778,7 +782,8 @@ func Main(args []string) int {
 			case <-done:
 			case <-time.After(60 * time.Second):
 				cmd.Process.Kill()
-				results[i] = []rec.Event{{"op": "Crash", "site": "scenario did not finish within 60 s", "hung": true}}
+				results[i] = []rec.Event{{"op": "Crash", "site": "scenario did not finish within 60 s", "hung": true},
+					{"op": "Drops", "n": strings.Count(stderr.String(), "DROP\n")}}
 				return
 			}
 			for _, l := range strings.Split(stdout.String(), "\n") {
